@@ -845,6 +845,78 @@ theorem run_block (nums : Nums) (A O : List Nat) (hE : nums.expectedError ∉ A)
   simp only [runEvs, step, Bool.not_true, Bool.false_eq_true, if_false,
     drain_all nums true _ _ (Nat.le_refl _) hnot, List.append_nil]
 
+/-! ### hiding options only filter the channel -/
+
+/-- what is left of a channel under the options -/
+def shown (h : Hide) (nums : Nums) (ms : List Msg) : List Msg := ms.filter (fun m => !h.hides (m.num nums))
+
+theorem wrXH_eq (h : Hide) (nums : Nums) (s : St) (n : Nat) (m : Msg) (hm : m.num nums = n) :
+    wrXH h s n m = ((wrX s n m).1, shown h nums (wrX s n m).2) := by
+  unfold wrXH wrX shown
+  cases findAndTake n s.pending with
+  | some p => rfl
+  | none =>
+    by_cases hh : h.hides n = true
+    · simp [hh, hm]
+    · simp [hh, hm]
+
+theorem shown_append (h : Hide) (nums : Nums) (a b : List Msg) : shown h nums (a ++ b) = shown h nums a ++ shown h nums b := by
+  simp [shown]
+
+theorem drainH_eq (h : Hide) (nums : Nums) : ∀ (fuel : Nat) (s : St),
+    drainH h nums fuel s = ((drain nums fuel s).1, shown h nums (drain nums fuel s).2) := by
+  intro fuel
+  induction fuel with
+  | zero => intro s; rfl
+  | succ fuel ih =>
+    intro s
+    cases hp : s.pending with
+    | nil => simp [drainH, drain, hp, shown]
+    | cons a l =>
+      simp only [drainH, drain, hp]
+      have hw := wrXH_eq h nums { inExpect := s.inExpect, pending := l } nums.expectedError (.missing a) rfl
+      rw [hw, ih]
+      simp only [shown_append]
+
+theorem stepH_eq (h : Hide) (nums : Nums) (s : St) (e : Ev) :
+    stepH h nums s e = ((step nums s e).1, shown h nums (step nums s e).2) := by
+  cases e with
+  | occur n => simp only [stepH, step]; exact wrXH_eq h nums s n _ rfl
+  | expect ns =>
+    simp only [stepH, step]
+    by_cases hi : s.inExpect = true
+    · simp only [hi, if_true]; exact wrXH_eq h nums s _ _ rfl
+    · simp [hi, shown]
+  | endexpect =>
+    simp only [stepH, step]
+    by_cases hi : s.inExpect = true
+    · simp only [hi, Bool.not_true, Bool.false_eq_true, if_false]
+      rw [drainH_eq]
+    · have hi' : s.inExpect = false := by cases hh : s.inExpect <;> simp_all
+      simp only [hi', Bool.not_false, if_true]
+      exact wrXH_eq h nums s _ _ rfl
+
+theorem runEvsH_eq (h : Hide) (nums : Nums) (evs : List Ev) : ∀ s : St,
+    runEvsH h nums s evs = ((runEvs nums s evs).1, shown h nums (runEvs nums s evs).2) := by
+  induction evs with
+  | nil => intro s; rfl
+  | cons e es ih =>
+    intro s
+    simp only [runEvsH, runEvs]
+    rw [stepH_eq, ih]
+    simp only [shown_append]
+
+theorem passExitH_eq (h : Hide) (nums : Nums) (s : St) : passExitH h nums s = shown h nums (passExit nums s) := by
+  unfold passExitH passExit
+  by_cases hi : s.inExpect = true
+  · simp only [hi, if_true]
+    rw [wrXH_eq h nums s nums.missingEndExpect (.msg nums.missingEndExpect) rfl]
+  · simp [hi, shown]
+
+theorem runPassH_eq (h : Hide) (nums : Nums) (evs : List Ev) : runPassH h nums evs = shown h nums (runPass nums evs) := by
+  unfold runPassH runPass
+  simp only [runEvsH_eq, passExitH_eq, shown_append]
+
 end Exp
 
 end AslModel.Pos
